@@ -110,6 +110,7 @@ impl<T> Outcome<T> {
 
 thread_local! {
     static LAST_PANIC: RefCell<Option<String>> = RefCell::new(None);
+    static IN_GUARD: std::cell::Cell<u32> = std::cell::Cell::new(0);
 }
 
 pub fn install_panic_hook() {
@@ -135,6 +136,10 @@ pub fn install_panic_hook() {
         };
         let mut m = msg.replace('\n', " ");
         m.truncate(160);
+        if IN_GUARD.with(|g| g.get()) == 0 {
+            // a panic of the harness itself (not of a monitored library call): make it visible
+            eprintln!("HARNESS PANIC: {} @ {}", m, loc);
+        }
         LAST_PANIC.with(|p| *p.borrow_mut() = Some(format!("{} @ {}", m, loc)));
     }));
 }
@@ -144,7 +149,9 @@ pub fn install_panic_hook() {
 pub fn guard<T>(f: impl FnOnce() -> T) -> Outcome<T> {
     gm_sm2::verif_hooks::rng_set_limit(STEP_LIMIT);
     gm_sm9::verif_hooks::rng_set_limit(STEP_LIMIT);
+    IN_GUARD.with(|g| g.set(g.get() + 1));
     let r = catch_unwind(AssertUnwindSafe(f));
+    IN_GUARD.with(|g| g.set(g.get() - 1));
     match r {
         Ok(v) => Outcome::Ret(v),
         Err(p) => {
